@@ -6,8 +6,10 @@
 (* An expression is a sequence of tokens [kind, text], kind in NAME/NUMBER/OP/STRING, *)
 (* which is what Python's tokenize makes of the source text.  One action per call:    *)
 (*   Push(t), Lag      build a well-formed expression token by token (small grammar:  *)
-(*                     operand, unary minus, binary operator incl. ** and comparisons,*)
-(*                     call f(a, b), list literal [a, b], grouping, lag suffix x(k-1))*)
+(*                     operand, unary sign - / +, binary operator incl. ** and        *)
+(*                     comparisons, call f(a, b), list literal [a, b], grouping, lag  *)
+(*                     suffix x(k-1)).  The shortest expressions are a lone operand   *)
+(*                     (`x`, `2.5`) and a signed lone operand (`-x`, `+nan`).         *)
 (*   Rename(m)         replace_token_from_lookup(text, dict(m))                       *)
 (*   RenameOne(a, b)   replace_token(text, a, b)                                      *)
 (*   ListNames         list_tokens(text)                                              *)
@@ -16,6 +18,13 @@
 (* the actions below and the trace specification Tokens_Trace both use them.          *)
 (* A renaming map is a sequence of [from, to] pairs with distinct `from` (the order   *)
 (* is the insertion order of the Python dict the driver builds).                      *)
+(*                                                                                    *)
+(* What is a NAME is decided by the tokenizer alone.  NumericWords are names that      *)
+(* Python's number constructors also read as numbers (float('nan'), float('INF'),     *)
+(* complex('j')): for this specification they are names like any other - as the whole *)
+(* expression, signed, as keys of the map, as images and as bystanders.  Blanks are    *)
+(* not tokens: the driver renders every expression in several layouts (dense, spaced, *)
+(* untokenize style, blank-padded at both ends) and each must give the same tokens.   *)
 EXTENDS Integers, Sequences, FiniteSets, TLC
 
 CONSTANTS
@@ -29,18 +38,26 @@ CONSTANTS
     MinUnits,       \* calls are made on expressions of at least this many steps (0 except in -simulate)
     MaxDepth,       \* bound on bracket nesting
     MaxActs,        \* number of Rename/RenameOne/ListNames calls on one expression
-    AllowNeg, AllowCall, AllowList, AllowGroup, AllowLag
+    Signs,          \* unary sign texts usable before an operand: subset of {"-", "+"}
+    AllowCall, AllowList, AllowGroup, AllowLag
 
 Tok(k, t) == [kind |-> k, text |-> t]
 IsName(t) == t.kind = "NAME"
 
 ----------------------------------------------------------------------------
 (* two fixed integer valuations of every name the instances use *)
-Vals == << [x |-> 6,  x_1 |-> 3, xx |-> 5,  m_x |-> 2, k |-> 4,  H__x |-> 7],
-           [x |-> -4, x_1 |-> 2, xx |-> -3, m_x |-> 7, k |-> -5, H__x |-> 3] >>
+Vals == << [x |-> 6,  x_1 |-> 3, xx |-> 5,  m_x |-> 2, k |-> 4,  H__x |-> 7,
+            inf |-> 8,  nan |-> 9, NaN |-> 10, Infinity |-> 11, INF |-> 12, j |-> 13],
+           [x |-> -4, x_1 |-> 2, xx |-> -3, m_x |-> 7, k |-> -5, H__x |-> 3,
+            inf |-> -6, nan |-> 4, NaN |-> -7, Infinity |-> 5,  INF |-> -8, j |-> 6] >>
 Universe == DOMAIN Vals[1]
 
+(* NAME tokens that float() / complex() would also accept as the text of a number *)
+NumericWords == {"inf", "nan", "NaN", "Infinity", "INF", "j"}
+
 ASSUME Names \subseteq Universe
+ASSUME NumericWords \subseteq Universe
+ASSUME Signs \subseteq {"-", "+"}
 
 (* integer literals of the arithmetic fragment *)
 IntLit(s) == CASE s = "1" -> 1 [] s = "0x1f" -> 31 [] s = "2" -> 2 [] OTHER -> 0
@@ -49,9 +66,9 @@ ArithOps == {"+", "-", "*"}
 
 ----------------------------------------------------------------------------
 (* grammar: st = [toks, stack, expect, units]                                *)
-(*   expect: "operand"  an operand (or unary minus, or an opening bracket)   *)
+(*   expect: "operand"  an operand (or a unary sign, or an opening bracket)  *)
 (*           "first"    as "operand", or the closing bracket of f() / []     *)
-(*           "nounary"  an operand, no further unary minus                   *)
+(*           "nounary"  an operand, no further unary sign                    *)
 (*           "operator" a binary operator, a comma, a closer, a call, a lag  *)
 (*   stack: sequence of "call" / "list" / "group"                            *)
 St0 == [toks |-> << >>, stack |-> << >>, expect |-> "operand", units |-> 0]
@@ -62,13 +79,14 @@ LastIsName(st) == st.toks # << >> /\ IsName(st.toks[Len(st.toks)])
 Closer(sym) == IF sym = "list" THEN "]" ELSE ")"
 
 WantsOperand(st) == st.expect \in {"operand", "first", "nounary"}
+IsSign(t) == t.kind = "OP" /\ t.text \in Signs
 
 CanPush(st, t) ==
     \/ /\ WantsOperand(st)
        /\ \/ t.kind = "NAME" /\ t.text \in Names
           \/ t.kind = "NUMBER" /\ t.text \in Numbers
           \/ t.kind = "STRING" /\ t.text \in Strings
-          \/ t = Tok("OP", "-") /\ AllowNeg /\ st.expect # "nounary"
+          \/ IsSign(t) /\ st.expect # "nounary"
           \/ t = Tok("OP", "[") /\ AllowList /\ Len(st.stack) < MaxDepth
           \/ t = Tok("OP", "(") /\ AllowGroup /\ Len(st.stack) < MaxDepth
           \/ st.expect = "first" /\ t = Tok("OP", Closer(Top(st)))
@@ -87,7 +105,7 @@ PushOp(st, t) ==
     IN IF IsCloser(st, t)
          THEN [toks |-> ts, stack |-> Pop(st.stack), expect |-> "operator", units |-> u]
        ELSE IF WantsOperand(st)
-         THEN CASE t = Tok("OP", "-") -> [toks |-> ts, stack |-> st.stack, expect |-> "nounary", units |-> u]
+         THEN CASE IsSign(t)          -> [toks |-> ts, stack |-> st.stack, expect |-> "nounary", units |-> u]
                 [] t = Tok("OP", "[") -> [toks |-> ts, stack |-> Append(st.stack, "list"), expect |-> "first", units |-> u]
                 [] t = Tok("OP", "(") -> [toks |-> ts, stack |-> Append(st.stack, "group"), expect |-> "operand", units |-> u]
                 [] OTHER              -> [toks |-> ts, stack |-> st.stack, expect |-> "operator", units |-> u]
@@ -104,7 +122,7 @@ Complete(st) == st.stack = << >> /\ st.expect = "operator"
 (* every token any instance can produce *)
 Alphabet == { Tok("NAME", n) : n \in Names } \cup { Tok("NUMBER", n) : n \in Numbers }
             \cup { Tok("STRING", s) : s \in Strings }
-            \cup { Tok("OP", o) : o \in BinOps \cup {"-", "(", ")", "[", "]", ","} }
+            \cup { Tok("OP", o) : o \in BinOps \cup Signs \cup {"(", ")", "[", "]", ","} }
 
 (* membership of a whole token sequence in the grammar (used by the trace spec): the   *)
 (* lag suffix is accepted through the call rule when k, "-" and 1 are in the alphabet. *)
@@ -140,7 +158,7 @@ UntokText(ts) ==
     ELSE Head(ts).text \o (IF Head(ts).kind \in {"NAME", "NUMBER"} THEN " " ELSE "") \o UntokText(Tail(ts))
 
 ----------------------------------------------------------------------------
-(* value of the arithmetic fragment: names, integer literals, + - * (unary minus        *)
+(* value of the arithmetic fragment: names, integer literals, + - * (unary signs        *)
 (* allowed), no brackets: a signed sum of products                                      *)
 Arith(ts) ==
     /\ ts # << >>
@@ -151,15 +169,15 @@ Arith(ts) ==
 
 AtomVal(t, v) == IF t.kind = "NAME" THEN v[t.text] ELSE IntLit(t.text)
 
-(* acc = [sum, prod, want]; want = TRUE when an operand is expected (a "-" is then unary) *)
+(* acc = [sum, prod, want]; want = TRUE when an operand is expected (- / + are then unary) *)
 RECURSIVE EvalFrom(_, _, _)
 EvalFrom(ts, v, acc) ==
     IF ts = << >> THEN acc.sum + acc.prod
     ELSE LET t == Head(ts) IN
          IF t.kind # "OP"
            THEN EvalFrom(Tail(ts), v, [acc EXCEPT !.prod = @ * AtomVal(t, v), !.want = FALSE])
-         ELSE IF acc.want      \* unary minus
-           THEN EvalFrom(Tail(ts), v, [acc EXCEPT !.prod = 0 - @])
+         ELSE IF acc.want      \* unary sign
+           THEN EvalFrom(Tail(ts), v, [acc EXCEPT !.prod = IF t.text = "-" THEN 0 - @ ELSE @])
          ELSE IF t.text = "*"
            THEN EvalFrom(Tail(ts), v, [acc EXCEPT !.want = TRUE])
          ELSE EvalFrom(Tail(ts), v, [sum |-> acc.sum + acc.prod,
@@ -255,6 +273,9 @@ Simultaneous(ts, m, r) ==
     /\ Len(r) = Len(ts)
     /\ \A i \in 1..Len(ts) : (IsName(ts[i]) /\ InDom(m, ts[i].text))
                                  => r[i] = Tok("NAME", MapApply(m, ts[i].text))
+
+(* the whole expression is one operand, possibly signed: `nan`, `-x`, `2.5` *)
+Lone(ts) == Len(ts) = 1 \/ (Len(ts) = 2 /\ ts[1].kind = "OP")
 
 IsSwap(m) == Len(m) = 2 /\ m[1].from = m[2].to /\ m[2].from = m[1].to /\ m[1].from # m[1].to
 
